@@ -32,7 +32,7 @@ CACHES = ("simple", "lru", "hybrid", "disk")
 
 def registry():
     from contracts import misc
-    return {c.short: c for c in misc.ALL}
+    return {**{c.short: c for c in misc.ALL}, **{c.name: c for c in misc.ALL}}
 
 
 def _cck_gen(rng, tier):
